@@ -967,6 +967,23 @@ pub fn run(cfg: &Config) -> i32 {
     ] {
         cases.push(("full/fixed".into(), Case::Full { text: t.to_string() }));
     }
+    // every envelope shape of C10 (all header lengths, tag subsets and orders, boundary values, malformed
+    // headers), plus each with its block 1 and block 2 cut at every length: C10 only notes a panic, here it counts
+    for (k, t) in super::c10::envelope_texts(cfg).into_iter().enumerate() {
+        if k % 97 == 0
+            && let Some(blocks) = tok::split_blocks(&t)
+        {
+            for (id, content) in blocks.iter().filter(|b| b.0 == "1" || b.0 == "2") {
+                for cut in 0..content.len() {
+                    if content.is_char_boundary(cut) {
+                        let shorter = t.replacen(&format!("{{{id}:{content}}}"), &format!("{{{id}:{}}}", &content[..cut]), 1);
+                        cases.push(("full/envelope-cut".into(), Case::Full { text: shorter }));
+                    }
+                }
+            }
+        }
+        cases.push(("full/envelope".into(), Case::Full { text: t }));
+    }
 
     let n = cases.len() as u64;
     let cases = std::sync::Arc::new(cases);
